@@ -606,6 +606,14 @@ struct UdpObs {
     assoc_err: Option<String>,
     /// SOCKS5: datagrams with FRAG != 0 sent (a relay without reassembly must drop them, RFC 1928 section 7), how many of them
     /// were nevertheless answered by the target, and ordinary datagrams sent / replies received AFTER the fragments
+    /// churn group (clients coming and going over more than two prune periods): datagrams sent / replies received during the
+    /// last phase, after older clients have been forgotten and newcomers have appeared
+    churn_late_sent: usize,
+    churn_late_replies: usize,
+    /// a second UDP socket of the same host using the same association (the ASSOCIATE request named 0.0.0.0:0, RFC 1928 restricts the
+    /// source IP address only): datagrams sent from it / replies it received
+    second_port_sent: usize,
+    second_port_replies: usize,
     /// one association alternating between an IPv4 and an IPv6 target: datagrams sent to / replies received from each
     fam_v4_sent: usize,
     fam_v4_replies: usize,
@@ -771,6 +779,41 @@ async fn udp_client(env: Arc<Env>, seed: u64, cid: u64, socks5: bool, n: usize, 
         o.fam_v4_replies = (0..8u32).filter(|k| k % 2 == 0 && seen.contains(&(base + k, 0))).count();
         o.fam_v6_replies = (0..8u32).filter(|k| k % 2 == 1 && seen.contains(&(base + k, 0))).count();
     }
+    if socks5 && cid % 4 == 3 {
+        // the same association used from a second local socket (another source port of the same host)
+        if let Ok(sock2) = UdpSocket::bind("127.0.0.1:0").await {
+            let mut expected2: HashMap<(u32, u8), Vec<u8>> = HashMap::new();
+            let mut seen2: std::collections::HashSet<(u32, u8)> = std::collections::HashSet::new();
+            let mut o2 = UdpObs::default();
+            for k in 0..5u32 {
+                let seq = n as u32 + 600 + k;
+                let mut req = cid.to_be_bytes().to_vec();
+                req.push((seq & 0xff) as u8);
+                req.push(1);
+                req.extend(seq.to_be_bytes());
+                req.extend(prf_vec(mix(seed, cid * 1000 + u64::from(seq)), 0, 18));
+                let mut out = vec![b'R', 0];
+                out.extend_from_slice(&req);
+                expected2.insert((seq, 0), out);
+                let mut w = vec![0u8, 0, 0, 1, 127, 0, 0, 1];
+                w.extend(env.udp_target_port.to_be_bytes());
+                w.extend(&req);
+                if sock2.send_to(&w, dest).await.is_ok() {
+                    o.second_port_sent += 1;
+                }
+                collect(&sock2, dest, socks5, cid, &expected2, &mut seen2, &mut o2, Instant::now() + Duration::from_millis(100)).await;
+            }
+            collect(&sock2, dest, socks5, cid, &expected2, &mut seen2, &mut o2, Instant::now() + Duration::from_millis(300)).await;
+            o.second_port_replies = seen2.len();
+            o.foreign += o2.foreign;
+            o.corrupted += o2.corrupted;
+            o.wrong_source += o2.wrong_source;
+            o.duplicates += o2.duplicates;
+            for b in o2.bad_header {
+                o.bad_header.push(b);
+            }
+        }
+    }
     {
         // replies of length zero (legal UDP; a keep-alive or an empty answer): each must come through like any other
         for k in 0..4u32 {
@@ -916,6 +959,50 @@ async fn udp_client(env: Arc<Env>, seed: u64, cid: u64, socks5: bool, n: usize, 
         collect(&sock, dest, socks5, cid, &expected, &mut seen, &mut o, Instant::now() + Duration::from_millis(400)).await;
         o.after_idle_replies = o.replies - before;
     }
+    o
+}
+
+/// One member of the churn group on the UDP remote. role 0: three datagrams at the start, then silence (it is forgotten after the
+/// prune period); role 1: a datagram every 400 ms for 27 s; role 2: appears after 21.5 s (when the early clients have been
+/// forgotten) and sends every 300 ms for 5 s. Every client must go on receiving the replies to its own datagrams, whoever
+/// else comes and goes.
+async fn udp_churn_client(env: Arc<Env>, seed: u64, cid: u64, role: u8) -> UdpObs {
+    let mut o = UdpObs::default();
+    let sock = UdpSocket::bind("127.0.0.1:0").await.expect("bind udp");
+    let dest = SocketAddr::from(([127, 0, 0, 1], env.udp_port));
+    let t0 = Instant::now();
+    let mut expected: HashMap<(u32, u8), Vec<u8>> = HashMap::new();
+    let mut seen: std::collections::HashSet<(u32, u8)> = std::collections::HashSet::new();
+    let (start_ms, every_ms, until_ms): (u64, u64, u64) = match role {
+        0 => (0, 100, 300),
+        1 => (0, 400, 27_000),
+        _ => (21_500, 300, 26_500),
+    };
+    tokio::time::sleep(Duration::from_millis(start_ms)).await;
+    let mut seq = 0u32;
+    let mut late_seqs = Vec::new();
+    while (t0.elapsed().as_millis() as u64) < until_ms {
+        let mut req = cid.to_be_bytes().to_vec();
+        req.push((seq & 0xff) as u8);
+        req.push(1);
+        req.extend(seq.to_be_bytes());
+        req.extend(prf_vec(mix(seed, cid * 1000 + u64::from(seq)), 0, 16));
+        let mut out = vec![b'R', 0];
+        out.extend_from_slice(&req);
+        expected.insert((seq, 0), out);
+        let late = t0.elapsed().as_millis() as u64 >= 22_000;
+        if sock.send_to(&req, dest).await.is_ok() {
+            o.sent += 1;
+            if late {
+                o.churn_late_sent += 1;
+                late_seqs.push(seq);
+            }
+        }
+        seq += 1;
+        collect(&sock, dest, false, cid, &expected, &mut seen, &mut o, Instant::now() + Duration::from_millis(every_ms)).await;
+    }
+    collect(&sock, dest, false, cid, &expected, &mut seen, &mut o, Instant::now() + Duration::from_millis(400)).await;
+    o.churn_late_replies = late_seqs.iter().filter(|q| seen.contains(&(**q, 0))).count();
     o
 }
 
@@ -1084,6 +1171,10 @@ async fn run_once(seed: u64, convs: Vec<Conv>, udp_clients: Vec<(u64, bool, usiz
         for (cid, socks5, n, maxp) in udp_clients {
             let env2 = env.clone();
             us.push((cid, socks5, tokio::spawn(udp_client(env2, seed, cid, socks5, n, maxp))));
+        }
+        // the churn group: one early client that falls silent, two steady ones, two newcomers after the early ones were forgotten
+        for (cid, role) in [(200u64, 0u8), (201, 1), (202, 1), (203, 2), (204, 2)] {
+            us.push((cid, false, tokio::spawn(udp_churn_client(env.clone(), seed, cid, role))));
         }
         for (c, h) in hs {
             let lo = h.await.ok().flatten();
@@ -1313,6 +1404,19 @@ fn judge(st: &mut Stats, seed: u64, out: &RunOut) {
             st.target("udp_flows_resumed_after_idle", 1);
             if o.after_idle_sent >= 5 && o.after_idle_replies == 0 {
                 st.violation(Violation { signature: format!("udp-flow-dead-after-idle|{kind}"), detail: format!("the local socket was silent for 11 s and then sent {} datagrams at 200 ms intervals: not one reply came back although the exchange worked before the pause ({} replies): the flow stays black-holed", o.after_idle_sent, o.replies - o.after_idle_replies), replay: replay() });
+            }
+        }
+        if o.churn_late_sent > 0 {
+            st.target("udp_clients_active_after_others_were_forgotten", 1);
+            if o.churn_late_sent >= 8 && o.churn_late_replies == 0 {
+                st.violation(Violation { signature: format!("udp-client-starved-after-churn|{kind}"), detail: format!("client {cid} sent {} datagrams between 22 s and 27 s of the run, after earlier clients had been forgotten and new ones had appeared: not one reply reached it ({} replies in all)", o.churn_late_sent, o.replies), replay: replay() });
+            }
+        }
+        if o.second_port_sent > 0 {
+            st.target("socks5_associations_used_from_a_second_source_port", 1);
+            st.count("second_source_port_replies", o.second_port_replies as u64);
+            if o.second_port_sent >= 5 && o.second_port_replies == 0 && o.replies > 0 {
+                st.violation(Violation { signature: format!("udp-second-source-port-never-served|{kind}"), detail: format!("a second socket of the same host sent {} datagrams through an association that had served {} replies to the first socket: not one was answered", o.second_port_sent, o.replies), replay: replay() });
             }
         }
         if o.fam_v6_sent > 0 {
